@@ -128,6 +128,10 @@ var c15Ufrags = []string{"ufa", "ufb", "ufc"}
 
 func runC15(c *core.Ctx) {
 	t := c.T
+	if t.Bias(1, 5, "attach-race") {
+		runC15Race(c)
+		return
+	}
 	w := &c15World{c: c, live: map[string]*c15PC{}}
 	cfg := t.Pick([]int{5, 2, 2}, "cfg")
 	var pFirst, pAlive time.Duration
